@@ -87,9 +87,10 @@ def c02(case, rec=None):
                     if lo < 0 or hi > ext[region]:
                         import constructs
 
-                        raise Violation("C02/out-of-region/%s-region%s%s" % (what, "SHRAM" if region == csdec.SHRAM_REGION else region, constructs.tags(case["spec"])),
+                        raise Violation("C02/out-of-region/%s-region%s" % (what, "SHRAM" if region == csdec.SHRAM_REGION else region),
                                         "%s #%d of ethos-u operator %d %s bytes [0x%x,0x%x) of region %s whose published extent is %d bytes" % (
-                                            c.kind, c.index, nop.index, what, lo, hi, "SHRAM" if region == csdec.SHRAM_REGION else region, ext[region]), case)
+                                            c.kind, c.index, nop.index, what, lo, hi, "SHRAM" if region == csdec.SHRAM_REGION else region, ext[region]), case,
+                                        tags=constructs.tags(case["spec"]))
                     if region == 2:
                         feats.add("region2")
             if 0 in writes and writes[0]:
